@@ -120,7 +120,7 @@ Proof.
     + rewrite (K i ob Hl), Ed. reflexivity.
     + split; [exact Cm | split; [exact Z | exact K]].
     + intros ci len1 _ E. rewrite dom_len1_none in E. injection E as <-. intros E'. injection E' as ->.
-      apply (Z i ob 0%Z Hl Ed). reflexivity.
+      apply (proj1 (Z i ob 0%Z Hl Ed)). reflexivity.
   - cbn [fst]. apply dok_collect. apply dok_set_root. exact D.
   - destruct (get_root st slot) as [i|]; [|exact D].
     destruct (hget (heap st) i) as [ob|]; [|exact D].
